@@ -223,7 +223,7 @@ theorem good_emitConstant (pos : Pos) (v : CVal) : Good (emitConstant pos v) := 
   unfold emit_
   apply Sat.bind
   apply sat_emit hi1 (by decide) (argsOK_const (by decide) hlt)
-  intro s2 hi2 hr2 _ _ _
+  intro s2 hi2 hr2 _ _ _ _
   exact Sat.pure ⟨hi2, hr1.trans hr2, trivial⟩
 
 macro_rules | `(tactic| good_leaf) => `(tactic| with_reducible exact good_emitConstant _ _)
@@ -240,12 +240,12 @@ theorem sat_emitFnConstant {pos : Pos} {fn : CFn} {nfree : Nat} {s : CState} (hs
   · unfold emit_
     apply Sat.bind
     apply sat_emit hi1 (by decide) (argsOK_const (by decide) hlt)
-    intro s2 hi2 hr2 _ _ _
+    intro s2 hi2 hr2 _ _ _ _
     exact Sat.pure ⟨hi2, hr1.trans hr2, trivial⟩
   · unfold emit_
     apply Sat.bind
     apply sat_emit hi1 (by decide) (argsOK_const (by decide) hlt)
-    intro s2 hi2 hr2 _ _ _
+    intro s2 hi2 hr2 _ _ _ _
     exact Sat.pure ⟨hi2, hr1.trans hr2, trivial⟩
 
 theorem good_findSymbolSelf (name : String) : Good (findSymbolSelf name) := by
@@ -409,7 +409,7 @@ theorem good_compileDefine (pos : Pos) (ident : String) (allow : Bool) (keyword 
           unfold emit_
           apply Sat.bind
           apply sat_emit hi1 (by decide) (StaticArgs.argsOK (by opa) _ _)
-          intro s2 hi2 hr2 _ ht2 _
+          intro s2 hi2 hr2 _ ht2 _ _
           apply Sat.pure
           -- the symbol under `ident` in the head table is still `sym`, which is not a CONSTLIT symbol
           unfold updateSym
@@ -598,24 +598,49 @@ theorem good_finishFn : Good finishFn := by
 def GoodS {α} (P : α → CState → Prop) (m : CM α) : Prop :=
   ∀ s, Inv s → Sat m s (fun a s' => Inv s' ∧ Rel s s' ∧ P a s')
 
-theorem goodS_finishTail (lastOp : Nat) (pend : List Nat) :
-    GoodS (fun fn s' => StreamOK s'.constants.size fn.insts) (finishTail lastOp pend) := by
-  intro s hs
+/-- `finishTail` on the result of the scan of the current stream -/
+theorem sat_finishTail (lastOp : Nat) (pend : List Nat) (s : CState) (hs : Inv s)
+    (hp : PendOK s.insts s.insts.size pend)
+    (hl : (s.insts.size = 0 ∧ lastOp = 0) ∨ LastAt s.insts s.insts.size lastOp) :
+    Sat (finishTail lastOp pend) s (fun fn s' => Inv s' ∧ Rel s s' ∧ FinStream s'.constants.size fn.insts) := by
   unfold finishTail
-  have h1 : Good (if (lastOp != OpReturn || !pend.isEmpty) = true then emit_ 0 OpReturn [0] else Pure.pure ()) := by good
-  apply Sat.bind
-  apply Sat.mono (h1 s hs)
-  intro _ s1 ⟨hi1, hr1, _⟩
-  apply Sat.bind
-  apply Sat.get
-  apply Sat.bind
-  apply Sat.mono (good_headTable s1 hi1)
-  intro t s2 ⟨hi2, hr2, _⟩
-  apply Sat.pure
-  refine ⟨hi2, hr1.trans hr2, ?_⟩
-  exact ⟨hi1.walk, hi1.targets.mono hr2.csz⟩
+  by_cases hc : (lastOp != OpReturn || !pend.isEmpty) = true
+  · rw [if_pos hc]
+    unfold emit_
+    apply Sat.bind
+    apply Sat.bind
+    apply sat_emit hs (by decide) (StaticArgs.argsOK (by opa) _ _)
+    intro s1 hi1 hr1 hbd _ ⟨opb, hget, hopb⟩ hsz
+    apply Sat.pure
+    apply Sat.bind
+    apply Sat.get
+    apply Sat.bind
+    apply Sat.mono (good_headTable s1 hi1)
+    intro t s2 ⟨hi2, hr2, _⟩
+    apply Sat.pure
+    refine ⟨hi2, hr1.trans hr2, ⟨hi1.walk, hi1.targets.mono hr2.csz⟩, ?_, ?_⟩
+    · exact jumpsStrict_append hs.targets hs.walk hr1.pre (by rw [hsz, hopb]) hget (by rw [hopb]; rfl) (by rw [hopb]; decide)
+    · exact endsInReturn_append hs.walk hr1.pre (by rw [hsz, hopb]) hget hopb
+  · rw [if_neg hc]
+    have hc' : lastOp = OpReturn ∧ pend = [] := by
+      simp only [Bool.or_eq_true, bne_iff_ne, ne_eq, Bool.not_eq_true', not_or, Decidable.not_not, Bool.not_eq_false] at hc
+      exact ⟨hc.1, by simpa using hc.2⟩
+    obtain ⟨hlo, hpe⟩ := hc'
+    subst hpe
+    apply Sat.bind
+    apply Sat.pure
+    apply Sat.bind
+    apply Sat.get
+    apply Sat.bind
+    apply Sat.mono (good_headTable s hs)
+    intro t s2 ⟨hi2, hr2, _⟩
+    apply Sat.pure
+    refine ⟨hi2, hr2, ⟨hs.walk, hs.targets.mono hr2.csz⟩, jumpsStrict_of_pend hs.targets hp, ?_⟩
+    rcases hl with ⟨_, h0⟩ | hl
+    · rw [hlo] at h0; cases h0
+    · rw [hlo] at hl; exact hl
 
-theorem goodS_finishFn : GoodS (fun fn s' => StreamOK s'.constants.size fn.insts) finishFn := by
+theorem goodS_finishFn : GoodS (fun fn s' => FinStream s'.constants.size fn.insts) finishFn := by
   intro s hs
   unfold finishFn
   apply Sat.bind
@@ -623,10 +648,14 @@ theorem goodS_finishFn : GoodS (fun fn s' => StreamOK s'.constants.size fn.insts
   have := scanFn_some (s.insts.size + 1) 0 0 [] hs.walk
   cases hsc : scanFn s.insts (s.insts.size + 1) 0 0 [] with
   | none => rw [hsc] at this; simp at this
-  | some r => exact goodS_finishTail r.1 r.2 s hs
+  | some r =>
+    obtain ⟨l, P⟩ := r
+    have hspec := scanFn_spec (s.insts.size + 1) 0 0 [] l P (.refl 0) hs.walk (by omega)
+      (fun q t _ hq _ => by omega) (.inl rfl) hsc
+    exact sat_finishTail l P s hs hspec.1 hspec.2
 
 theorem goodS_withFn (pos : Pos) (variadic : Bool) (params : List String) {body : CM Unit} (hb : Good body) :
-    GoodS (fun r s' => StreamOK s'.constants.size r.1.insts) (withFn pos variadic params body) := by
+    GoodS (fun r s' => FinStream s'.constants.size r.1.insts) (withFn pos variadic params body) := by
   intro s hs
   obtain ⟨t, r, htr⟩ : ∃ t r, s.tables = t :: r := by
     cases h : s.tables with
